@@ -13,54 +13,40 @@ Open Scope N_scope.
 
 (* ---- the suppression relation ---- *)
 
-(* The code's test `other.ttl > self.ttl / 2` (u32 integer division) is exactly
-   2 * ttl(theirs) > ttl(mine): for odd TTLs too, exactly-half never suppresses. *)
+(* "that same record (owner, type, class, RDATA)" = same_record (Model/LifeSpec.v): the
+   cache-flush bit is not part of it; addresses are tied to their interface.
+   suppressed_by_answer is EXACTLY the property text: same record and 2 * ttl(theirs) > ttl(mine);
+   the code's `other.ttl > self.ttl / 2` (u32 integer division) is that, for odd TTLs too. *)
 Theorem C10_suppress_iff : forall mine tm theirs tt,
-  suppressed_by_answer mine tm theirs tt = true <-> matches mine theirs = true /\ tm < 2 * tt.
+  suppressed_by_answer mine tm theirs tt = true <-> same_record mine theirs = true /\ tm < 2 * tt.
 Proof. exact suppress_iff. Qed.
+
+Theorem C10_suppress_is_text : forall mine tm theirs tt,
+  suppressed_by_answer mine tm theirs tt = suppress_spec mine tm theirs tt.
+Proof. exact suppress_eq_spec. Qed.
 
 (* above half suppresses; exactly half and below never do (e.g. mine = 5: 3 suppresses, 2 not) *)
 Theorem C10_suppress_boundary : forall mine tm theirs tt,
-  matches mine theirs = true ->
+  same_record mine theirs = true ->
   (2 * tt > tm -> suppressed_by_answer mine tm theirs tt = true) /\
   (2 * tt <= tm -> suppressed_by_answer mine tm theirs tt = false).
 Proof. exact suppress_boundary. Qed.
 
-(* what `matches` compares: owner name byte for byte, type, class, CACHE-FLUSH BIT, record kind
-   and RDATA, and for addresses the interface *)
-Theorem C10_matches_iff : forall a b,
-  matches a b = true <->
+(* what same_record compares: owner name byte for byte, type, class, record kind and RDATA, and
+   for addresses the interface - never when the record differs *)
+Theorem C10_same_record_iff : forall a b,
+  same_record a b = true <->
   i_data a = i_data b /\ i_name a = i_name b /\ i_type a = i_type b /\ i_class a = i_class b /\
-  i_flush a = i_flush b /\ (is_addr_data (i_data a) = true -> i_if a = i_if b).
-Proof. exact matches_iff. Qed.
+  (is_addr_data (i_data a) = true -> i_if a = i_if b).
+Proof. exact same_record_iff. Qed.
 
-(* the property's "same record (owner, type, class, RDATA)" does not include the cache-flush bit *)
+(* `matches` (the cache's identity test) is same_record plus the cache-flush bit *)
 Theorem C10_matches_vs_same_record : forall a b,
   matches a b = same_record a b && Bool.eqb (i_flush a) (i_flush b).
 Proof. exact matches_same_record. Qed.
 
-(* so the code agrees with the property text whenever the flush bits are equal ... *)
-Theorem C10_suppress_agrees_with_text : forall mine tm theirs tt,
-  i_flush mine = i_flush theirs ->
-  suppressed_by_answer mine tm theirs tt = suppress_spec mine tm theirs tt.
-Proof. exact suppress_agrees_with_spec. Qed.
-
-(* ... and the full statement "suppressed iff same record and TTL above half" is FALSE of the
-   code: a known answer without the cache-flush bit (the form RFC 6762 10.2 prescribes for
-   known answers) never suppresses a unique record (SRV, TXT, A, AAAA).
-   Full statement: forall mine tm theirs tt, suppressed_by_answer mine tm theirs tt = suppress_spec mine tm theirs tt. *)
-Theorem C10_suppress_refuted :
-  exists mine tm theirs tt,
-    suppress_spec mine tm theirs tt = true /\ suppressed_by_answer mine tm theirs tt = false.
-Proof. exact suppress_flush_refuted. Qed.
-
-Theorem C10_flush_bit_differs_never_suppresses : forall mine tm theirs tt,
-  i_flush mine <> i_flush theirs -> suppressed_by_answer mine tm theirs tt = false.
-Proof. exact suppress_flush_bit_differs. Qed.
-
-(* monitor theorem (record level) *)
+(* monitor theorem (record level), for all pairs of records *)
 Theorem C10_rel_monitor : forall mine tm theirs tt,
-  i_flush mine = i_flush theirs ->
   chk_C10_rel mine tm theirs tt (matches mine theirs) (rrdata_match mine theirs)
     (suppressed_by_answer mine tm theirs tt) = true.
 Proof. exact chk_C10_rel_sound. Qed.
@@ -70,7 +56,7 @@ Proof. exact chk_C10_rel_sound. Qed.
 (* add_answer drops the answer iff some known answer of the query suppresses it *)
 Theorem C10_add_answer_dropped_iff : forall kas out a,
   snd (add_answer kas out a) = false <->
-  exists k, In k kas /\ matches (o_id a) (fst k) = true /\ o_ttl a < 2 * snd k.
+  exists k, In k kas /\ same_record (o_id a) (fst k) = true /\ o_ttl a < 2 * snd k.
 Proof. exact add_answer_dropped_iff. Qed.
 
 (* a suppressed PTR takes ALL its additionals with it; an unsuppressed one brings all of them *)
@@ -81,25 +67,25 @@ Theorem C10_ptr_and_additionals_together : forall kas out ptr adds,
   else mkOut (out_answers out ++ [ptr]) (out_additionals out ++ adds) (out_suppressed out).
 Proof. exact add_answer_with_additionals_spec. Qed.
 
-(* the whole response to a query (any questions, any known answers): outside the two listed
-   deviations it is exactly what the property prescribes - every unsuppressed candidate answer
-   with the additionals it brings, nothing of a suppressed one, silence if nothing is left *)
-Theorem C10_response_agrees_with_text : forall svcs qs kas,
-  Forall (cand_agree kas) (flat_map (question_cands svcs) qs) ->
+(* the whole response to a query, for every set of services (with or without subtype), every
+   question list and every known-answer list: exactly what the property prescribes - every
+   unsuppressed candidate answer with the additionals it brings, nothing of a suppressed one
+   (resp_spec: step_spec), silence if no answer is left *)
+Theorem C10_response_is_text : forall svcs qs kas,
   resp_predict svcs qs kas = resp_spec svcs qs kas.
-Proof. exact resp_agrees_with_text. Qed.
+Proof. exact resp_is_text. Qed.
 
-(* Full statement (forall svcs qs kas, resp_predict svcs qs kas = resp_spec svcs qs kas) is FALSE
-   of the code, in two ways: *)
-Theorem C10_response_srv_additionals_refuted :
-  exists svcs qs kas, resp_predict svcs qs kas <> resp_spec svcs qs kas /\
-    resp_predict svcs qs kas = Some ([sv_txt ex_svc], sv_addrs ex_svc) /\
-    resp_spec svcs qs kas = Some ([sv_txt ex_svc], []).
-Proof. exact resp_srv_additionals_refuted. Qed.
+Theorem C10_suppressed_brings_nothing : forall kas out c,
+  suppressed_spec (cd_answer c) kas = true ->
+  out_answers (step_spec kas out c) = out_answers out /\
+  out_additionals (step_spec kas out c) = out_additionals out.
+Proof. exact suppressed_brings_nothing. Qed.
 
-Theorem C10_response_flush_bit_refuted :
-  exists svcs qs kas, resp_spec svcs qs kas = None /\ resp_predict svcs qs kas <> None.
-Proof. exact resp_flush_bit_refuted. Qed.
+Theorem C10_unsuppressed_brings_all : forall kas out c,
+  cd_has_addrs c = true -> suppressed_spec (cd_answer c) kas = false ->
+  out_answers (step_spec kas out c) = out_answers out ++ [cd_answer c] /\
+  out_additionals (step_spec kas out c) = out_additionals out ++ cd_adds c.
+Proof. exact unsuppressed_brings_all. Qed.
 
 (* ---- querier ---- *)
 
@@ -123,6 +109,15 @@ Theorem C10_known_answer_listed_if : forall (b : tbucket) now e,
   In (c_id e, t_ttl (c_t e) - (now - t_created (c_t e)) / 1000) (ka_spec b now).
 Proof. exact ka_spec_complete. Qed.
 
+(* Full statement "never one with less than half of its lifetime left" is FALSE of the code
+   (known finding C10-ka-shortened-record): a shared record flushed to expire in one second is
+   still listed with the TTL computed from created/ttl (here: 1 s left of 10, listed with TTL 8). *)
+Theorem C10_known_answers_shortened_refuted :
+  exists (b : tbucket) now e ttl,
+    In e b /\ In (c_id e, ttl) (ka_spec b now) /\
+    t_expires (c_t e) < now + 500 * t_ttl (c_t e) /\ ttl = 8 /\ t_expires (c_t e) - now = 1000.
+Proof. exact ka_shortened_refuted. Qed.
+
 (* update_ttl in general: panics exactly when more whole seconds have elapsed than the TTL *)
 Theorem C10_update_ttl_panics_iff : forall r now,
   update_ttl r now = Panic <->
@@ -143,10 +138,17 @@ Example C10_example_boundary :
 Proof. repeat split; vm_compute; reflexivity. Qed.
 
 Example C10_example_ptr_suppressed :
+  resp_predict [ex_svc] [(ex_ty, TY_PTR); (ex_name, TY_TXT)] [(o_id (sv_ptr ex_svc), 2251)]
+  = Some ([sv_txt ex_svc], []) /\
   resp_predict [ex_svc] [(ex_ty, TY_PTR)] [(o_id (sv_ptr ex_svc), 2251)] = None /\
   resp_predict [ex_svc] [(ex_ty, TY_PTR)] [(o_id (sv_ptr ex_svc), 2250)]
-  = Some ([sv_ptr ex_svc], [sv_srv ex_svc; sv_txt ex_svc] ++ sv_addrs ex_svc).
-Proof. exact resp_ptr_example. Qed.
+  = Some ([sv_ptr ex_svc], sub_list ex_svc ++ [sv_srv ex_svc; sv_txt ex_svc] ++ sv_addrs ex_svc).
+Proof. exact resp_ptr_suppressed_example. Qed.
+
+Example C10_example_srv_without_flush_bit :
+  resp_predict [ex_svc] [(ex_name, TY_SRV); (ex_name, TY_TXT)]
+    [(mkId ex_name TY_SRV 1 false (RSrv 0 0 80 ex_host) 2, 100)] = Some ([sv_txt ex_svc], []).
+Proof. exact resp_srv_example. Qed.
 
 Example C10_example_known_answers :
   let p (k : N) fl := mkId [116;46] TY_PTR 1 fl (RPtr [105; k; 46]) 0 in
@@ -159,20 +161,19 @@ Example C10_example_known_answers :
 Proof. vm_compute. reflexivity. Qed.
 
 Print Assumptions C10_suppress_iff.
+Print Assumptions C10_suppress_is_text.
 Print Assumptions C10_suppress_boundary.
-Print Assumptions C10_matches_iff.
+Print Assumptions C10_same_record_iff.
 Print Assumptions C10_matches_vs_same_record.
-Print Assumptions C10_suppress_agrees_with_text.
-Print Assumptions C10_suppress_refuted.
-Print Assumptions C10_flush_bit_differs_never_suppresses.
 Print Assumptions C10_rel_monitor.
 Print Assumptions C10_add_answer_dropped_iff.
 Print Assumptions C10_ptr_and_additionals_together.
-Print Assumptions C10_response_agrees_with_text.
-Print Assumptions C10_response_srv_additionals_refuted.
-Print Assumptions C10_response_flush_bit_refuted.
+Print Assumptions C10_response_is_text.
+Print Assumptions C10_suppressed_brings_nothing.
+Print Assumptions C10_unsuppressed_brings_all.
 Print Assumptions C10_known_answers_spec.
 Print Assumptions C10_known_answer_listed_only_if.
 Print Assumptions C10_known_answer_listed_if.
+Print Assumptions C10_known_answers_shortened_refuted.
 Print Assumptions C10_update_ttl_panics_iff.
 Print Assumptions C10_update_ttl_safe_under_halflife.
